@@ -20,6 +20,8 @@ pub struct Swarm {
     pub multi_pct: u64,
     pub allow_select_io: [bool; 3],
     pub deep_area_pct: u64,
+    /// upper bound for dot counts (text size control)
+    pub max_d: usize,
 }
 
 #[derive(Clone, Copy, Debug, PartialEq)]
@@ -89,6 +91,7 @@ pub fn swarm(rng: &mut Rng, flavor: Flavor) -> Swarm {
         multi_pct: rng.range(10, 50),
         allow_select_io: [allow0, allow1, allow2],
         deep_area_pct: if rng.chance(15) { 20 } else { 2 },
+        max_d: usize::MAX,
     }
 }
 
@@ -182,6 +185,9 @@ pub fn gen_cmd(rng: &mut Rng, sw: &Swarm, flavor: Flavor) -> Cmd {
     }
     if (kind == 3 || kind == 4) && h == 1 && rng.chance(sw.multi_pct) {
         h = rng.usize(2, 4);
+    }
+    if d > sw.max_d {
+        d = 3 + d % sw.max_d.max(1);
     }
     let area = if has_area { gen_area(rng, sw, 6) } else { RArea::Nil };
     Cmd::new(kind, h, d, area)
@@ -392,4 +398,17 @@ pub fn gen_plan(rng: &mut Rng, fault_free: bool) -> Plan {
         p.write_eintr_pct = rng.range(5, 30) as u8;
     }
     p
+}
+
+/// h, d with h * d == v and h + d minimal (compact spelling of a large count)
+pub fn factor_pair(v: usize) -> (usize, usize) {
+    let mut best = (1usize, v);
+    let mut i = 1usize;
+    while i * i <= v {
+        if v % i == 0 {
+            best = (i, v / i);
+        }
+        i += 1;
+    }
+    best
 }
